@@ -9,8 +9,9 @@ from lib.runner import Stage, Violation, hyp_drive
 RULE = ("n in [0,2^64): all 65,536 values of each of the four 16-bit lanes with the other lanes all-0 and all-1 (524,288 "
         "values, enumerated in both tiers), single bits, 2^k+-1, boundaries, all 2- and 3-bit values, products of ~280 interesting 32-bit halves (2^k, 16^k, +-1, ones prefixes/suffixes, repeated nibbles), valid cell ids of every shape, Hypothesis "
         "integers, atheris on raw bytes (thorough); call sequences over a small pool mixing ints with equal-valued floats, negative ints and malformed strings (rejected requests must not affect later in-domain calls). Oracle: round-trip, regex ^(0|[1-9a-f][0-9a-f]*)$, equality with '%x' % n, "
-        "upper-case and zero-padded parsing. Non-trivial = n >= 2^32 (the repository suite stops below); distinct by n.")
-ASSUMPTIONS = ["python's own '%x' formatting is the reference for canonical lower-case hexadecimal"]
+        "upper-case, mixed-case (alternating from either phase, value-derived per-digit mask) and zero-padded parsing. Non-trivial = n >= 2^32 (the repository suite stops below); distinct by n.")
+ASSUMPTIONS = ["python's own '%x' formatting is the reference for canonical lower-case hexadecimal",
+               "'parsing accepts upper case' is read per digit: any mixture of upper- and lower-case digits parses to the same value"]
 PAT = re.compile(r"^(0|[1-9a-f][0-9a-f]*)$")
 
 
@@ -23,7 +24,13 @@ def judge_n(n, col=None, record=True, cls="hyp"):
         raise Violation("u64_to_hex_raised", case, observed=f"{type(e).__name__}: {e}", expected="a string")
     if not isinstance(s, str) or not PAT.match(s) or s != "%x" % n:
         raise Violation("not_canonical_lowercase_hex", case, observed=s, expected="%x" % n)
-    for variant, kind in ((s, "round_trip"), (s.upper(), "upper_case"), ("000" + s, "leading_zeros")):
+    # per-digit case: alternating from either phase, and a mask derived from the value itself (no RNG of our own)
+    alt0 = "".join(ch.upper() if i % 2 == 0 else ch for i, ch in enumerate(s))
+    alt1 = "".join(ch.upper() if i % 2 == 1 else ch for i, ch in enumerate(s))
+    mask = (n * 0x9E3779B97F4A7C15) >> 7
+    mixed = "".join(ch.upper() if (mask >> i) & 1 else ch for i, ch in enumerate(s))
+    for variant, kind in ((s, "round_trip"), (s.upper(), "upper_case"), ("000" + s, "leading_zeros"),
+                          (alt0, "mixed_case"), (alt1, "mixed_case"), (mixed, "mixed_case"), ("0" + mixed.swapcase(), "mixed_case_leading_zero")):
         try:
             back = a5.hex_to_u64(variant)
         except Exception as e:  # noqa: BLE001
